@@ -54,6 +54,18 @@ def seeded_table():
         rows.append(f"| {name} | {m.get('breaks_property','')} | {m.get('summary','').replace('|','/').replace(chr(10),' ')[:150]} | {m.get('needs','').replace('|','/').replace(chr(10),' ')[:120]} | {first or ('caught' if allc else 'see meta.json')} | {final} | {STRENGTHENED.get(name, '-') if (first or '').startswith('missed') or name in ('C14b', 'C05f') else '-'} |")
     return "\n".join(rows)
 
+def round_stats():
+    import collections
+    r = collections.OrderedDict()
+    for d in sorted(glob.glob(os.path.join(ROOT, "seeded", "*", "meta.json"))):
+        name = os.path.basename(os.path.dirname(d)); m = json.load(open(d))
+        suf = name[3:] or "a"
+        fv = m.get("first_verdict") or ""
+        missed = fv.startswith("missed") or (not fv and not all(v["caught"] for v in m.get("checks_run", {}).values()))
+        a = r.setdefault(suf, [0, 0]); a[0] += 1; a[1] += bool(missed)
+    return ", ".join(f"round {i + 1}: {v[1]} of {v[0]}" for i, (k, v) in enumerate(sorted(r.items())))
+
+
 def main():
     p = os.path.join(ROOT, "DESIGN.md"); s = open(p).read()
     a = s.index("## 12. Independently seeded changes"); b = s.index("## 13. Measured cost")
@@ -73,7 +85,17 @@ same effect as `git -C /repo apply` without disturbing concurrent runs that read
 
 A change that the quick tier missed at first was used to strengthen the generator or the
 oracle of that property - never by special-casing the change - and then re-evaluated at
-several seeds:
+several seeds. Six rounds of 20 changes (one per property and round; later rounds were told
+what the earlier ones had done and which generic tricks to avoid) were first missed as
+follows: {round_stats()}. The rate did not fall to zero: every round of fresh adversaries
+still found inputs just outside what the generators covered at that time (argument aliasing
+and in-place writes, integer dtypes, magnitudes far from 1, sizes at the top of the stated
+range, numpy-integer enumeration fields after a checkpoint, negative ordinals, regimes other
+than the default, shapes that coincide with 3, interpreter aborts inside numba). After the
+strengthening all {n_total} are caught by the quick tier at three seeds, but the honest
+reading is that a seventh round would again find a few that are not; the generators now
+cover the classes listed above for every property where they apply, not only where the
+miss occurred (section 8, "The same values in every form a user would type them").
 
 {seeded_table()}
 
